@@ -55,6 +55,10 @@ func Inject(r *rand.Rand, c *cfg.Config, kind string, n int) {
 	switch kind {
 	case "missing-param":
 		name := fmt.Sprintf("nopeP%d", n)
+		if r.Intn(5) == 0 {
+			// names may be long (48, 60, 61, 100+ characters): they are printed, padded, aligned
+			name = fmt.Sprintf("nopeP%d.%s", n, strings.Repeat("billing.payments-gateway.http_client.", 1+r.Intn(3))+"timeout")
+		}
 		if len(c.Params) >= 2 && r.Intn(4) == 0 {
 			// a wide pattern (5-9 references, one of them dangling, at any position) that is compiled early, followed by other
 			// multi-chunk patterns compiled later
@@ -105,6 +109,9 @@ func Inject(r *rand.Rand, c *cfg.Config, kind string, n int) {
 		twins(r, c, name, "", false)
 	case "missing-service":
 		name := fmt.Sprintf("nopeS%d", n)
+		if r.Intn(5) == 0 {
+			name = fmt.Sprintf("nopeS%d.%s", n, strings.Repeat("billing.payments-gateway.http_client.", 1+r.Intn(3))+"transport")
+		}
 		if r.Intn(4) == 0 && len(c.Decorators) > 0 {
 			d := &c.Decorators[r.Intn(len(c.Decorators))]
 			d.Args = append(d.Args, cfg.Str("@"+name))
